@@ -9,7 +9,8 @@
 (***************************************************************************)
 EXTENDS EFCorpus, Json
 
-CONSTANT Tier          \* "quick" | "thorough"
+CONSTANT Tier,         \* "quick" | "thorough"
+         Seed          \* >= 1: shifts which part of a sampled family is taken (1 = the default sample)
 
 \* constant integer arithmetic, three operators deep, in all five groupings
 AOps  == IF Tier = "quick" THEN <<"+", "-", "*", "/">> ELSE <<"+", "-", "*", "/", "%">>
@@ -60,13 +61,13 @@ Group3(sh, o1, o2, o3, a, b, c, d) ==
 Next ==
   \/ /\ row.k = "arith0"
      /\ \E o3 \in 1..Len(AOps), a \in 1..NA, b \in 1..NA, c \in 1..NA, d \in 1..NA :
-          /\ (Tier = "thorough" \/ (a + 2 * b + 3 * c + 5 * d + row.sh + o3) % 8 = 0)
+          /\ (Tier = "thorough" \/ (a + 2 * b + 3 * c + 5 * d + row.sh + o3 + Seed - 1) % 8 = 0)
           /\ LET e == Group3(row.sh, row.op1, row.op2, AOps[o3], Lit(AVals[a]), Lit(AVals[b]), Lit(AVals[c]), Lit(AVals[d]))
              IN row' = [k |-> "arith3", prov |-> "llll", e |-> e, exp |-> EvalE(e), done |-> TRUE]
   \/ /\ row.k = "bin0"
      /\ \E j \in 1..NV, p \in 1..Len(Provs) :
           \* quick: literal operands for every cell, other provenances for a quarter of them
-          /\ (Tier = "thorough" \/ p = 1 \/ (j + p) % 4 = 0)
+          /\ (Tier = "thorough" \/ p = 1 \/ (j + p + Seed - 1) % 4 = 0)
           /\ row' = [k |-> "bin", prov |-> Provs[p],
                   e |-> <<"bin", row.op, Lit(row.l), Lit(Vals[j])>>,
                   exp |-> Bin(row.op, row.l, Vals[j]), done |-> TRUE]
@@ -78,7 +79,7 @@ Next ==
   \/ /\ row.k = "nest0"
      /\ \E a \in 1..NR, b \in 1..NR, c \in 1..NR, left \in BOOLEAN :
           \* thorough: every triple; quick: a fixed sixteenth of them chosen by the indices
-          /\ (Tier = "thorough" \/ (a + 2 * b + 3 * c + (IF left THEN 1 ELSE 0)) % 16 = 0)
+          /\ (Tier = "thorough" \/ (a + 2 * b + 3 * c + (IF left THEN 1 ELSE 0) + Seed - 1) % 16 = 0)
           /\ LET e == IF left THEN <<"bin", row.op2, <<"bin", row.op1, Lit(Red[a]), Lit(Red[b])>>, Lit(Red[c])>>
                               ELSE <<"bin", row.op1, Lit(Red[a]), <<"bin", row.op2, Lit(Red[b]), Lit(Red[c])>>>>
              IN row' = [k |-> "nest", prov |-> "ll", e |-> e, exp |-> EvalE(e), done |-> TRUE]
